@@ -20,7 +20,7 @@ RULE = ("histories of 10..300 IF.LDM.3/4 operations over 3 provider ids, 2 consu
 ASSUMPTIONS = ["expiry is judged only outside +-1 s of timestamp+validity and 'gone' only after an explicit maintenance pass later than that (reactive passes may or may not have run)",
                "objects are placed inside the LDM's area of maintenance; the auditor consumer id is registered once and never touched by the history",
                "registration follows the LDM's own register/deregister responses; only their consequences are judged"]
-REQUIRED_COUNTERS = ["maintenance_faults_injected", "steps", "full_comparisons", "adds_ok", "updates", "deletes", "expiry_gone_checked", "refusals_checked"]
+REQUIRED_COUNTERS = ["maintenance_faults_injected", "steps", "full_comparisons", "adds_ok", "updates", "deletes", "expiry_gone_checked", "refusals_checked", "clock_set_back"]
 
 PROVIDERS = (2, 1, 16)        # CAM, DENM, VAM application ids
 CONSUMERS = (2, 16)
